@@ -27,14 +27,21 @@ def _alarm(signum, frame):
     raise Hang()
 
 def with_alarm(fn, secs=5):
-    """Run fn() under a SIGALRM watchdog; a call that does not return is the outcome Hang."""
-    old = signal.signal(signal.SIGALRM, _alarm)
-    signal.setitimer(signal.ITIMER_REAL, secs)
+    """Run fn() under a watchdog; a call that does not return is the outcome Hang.
+    The budget is CPU time of this process (ITIMER_PROF), so that a loaded machine - other checks, coqc - cannot turn a slow call into a "hang"
+    (that did happen: a false alarm on a harmless rewrite while eight checks ran side by side); a wall-clock backstop of 30x the budget catches a
+    call that blocks without using the CPU."""
+    old_p = signal.signal(signal.SIGPROF, _alarm)
+    old_r = signal.signal(signal.SIGALRM, _alarm)
+    rem_p = signal.setitimer(signal.ITIMER_PROF, secs)[0]            # what was left of an enclosing watchdog (nested use): put back afterwards
+    rem_r = signal.setitimer(signal.ITIMER_REAL, 30 * secs)[0]
     try:
         return fn()
     finally:
-        signal.setitimer(signal.ITIMER_REAL, 0)
-        signal.signal(signal.SIGALRM, old)
+        signal.setitimer(signal.ITIMER_PROF, rem_p)
+        signal.setitimer(signal.ITIMER_REAL, rem_r)
+        signal.signal(signal.SIGPROF, old_p)
+        signal.signal(signal.SIGALRM, old_r)
 
 def exn_name(e: BaseException) -> str:
     """Map a raised exception to the model's exn enum (first matching class, fixed order)."""
@@ -271,7 +278,7 @@ def coq_eval(imports, term, prelude='', extra_q=()):
     with open(p, 'w') as f:
         f.write(CASE_HEADER.format(imports=' '.join(imports), prelude=prelude))
         f.write(f'Eval vm_compute in ({term}).\n')
-    rc, out, err = coqc(p, extra_q=extra_q, timeout=300)
+    rc, out, err = coqc(p, extra_q=extra_q, timeout=1500)
     shutil.rmtree(d, ignore_errors=True)
     return (out if rc == 0 else 'ERROR ' + err)[-2000:].strip()
 
@@ -334,7 +341,7 @@ def kernel_tie(pid):
     if not bridges:
         return res
     bridges = [(n, t.replace('From Gen Require', 'From GenK Require')) for n, t in bridges]
-    b = gen_build([('GenKernels', text)], bridges, timeout=300, logical='GenK')
+    b = gen_build([('GenKernels', text)], bridges, timeout=1200, logical='GenK')
     res['dir'] = b['dir']
     failed_gen = [r for r in b['bridge_results'] if r[0].startswith('generated file')]
     for name, r in b['bridge_results']:
@@ -345,7 +352,7 @@ def kernel_tie(pid):
         return res
     if res['unproved'] and os.path.isdir(b['dir']) is False:
         # a failed build is not kept under its content address: rebuild the generated file alone for the search
-        b2 = gen_build([('GenKernels', text)], [], timeout=300, logical='GenK'); res['dir'] = b2['dir']
+        b2 = gen_build([('GenKernels', text)], [], timeout=1200, logical='GenK'); res['dir'] = b2['dir']
     specs = {k['name']: k for k in kernels.KERNELS}
     for name, why in list(res['unproved']):
         spec = specs.get(name)
@@ -358,7 +365,7 @@ def kernel_tie(pid):
         os.makedirs(d, exist_ok=True)
         p = os.path.join(d, 'S.v')
         open(p, 'w').write(stext)
-        rc, out, err = coqc(p, extra_q=[(res['dir'], 'GenK')], timeout=300)
+        rc, out, err = coqc(p, extra_q=[(res['dir'], 'GenK')], timeout=1200)
         shutil.rmtree(d, ignore_errors=True)
         if rc == 0:
             res['diverging'][name] = kernels.parse_search_output(out, decode, 0) or []
